@@ -54,7 +54,8 @@ func ballAttrs() [][]ttml.Attr {
 	for _, n := range ttml.AttrNames {
 		o = append(o, a(n, attrValues[n]))
 	}
-	o = append(o, a("fontFamily", `a&b <c> "d" 'e'`), a("color", "red", "textAlign", "center"), a("origin", "10% 80%", "extent", "80% 10%", "writingMode", "tbrl", "zIndex", "-1"))
+	o = append(o, a("fontFamily", `a&b <c> "d" 'e'`), a("color", "red", "textAlign", "center"), a("origin", "10% 80%", "extent", "80% 10%", "writingMode", "tbrl", "zIndex", "-1"),
+		a("zIndex", "0")) // an explicit zero is a value, not an absence
 	return o
 }
 
